@@ -78,6 +78,8 @@ type vfGen struct {
 	// payload: entries carry the extended payload (vfPayloadX) in one of the shapes of nhx / topx;
 	// payloadValidOnly: pre-state entries only take the schema-valid shapes
 	payload bool
+	// encap: the extended payload of next-hops is drawn from the encapsulation-header shapes instead
+	encap bool
 	// lean: symbolic steps on top-level entries always carry a body and a group reference and nothing else
 	// optional (the optional fields are explored by the other harnesses); pre-state slots are always live
 	lean bool
@@ -87,11 +89,19 @@ type vfGen struct {
 var vfBadIPs = []string{"", "1.2.3", "300.1.1.1", "01.2.3.4", "1.2.3.4/32", "fe80::1%eth0", "::ffff:1.2.3.4", "2001:db8::g"}
 var vfBadMACs = []string{"", "00:11:22:33:44", "0:1:2:3:4:5", "00-11-22-33-44-55", "gg:11:22:33:44:55", "00:11:22:33:44:55:66"}
 
-// nhx: one of 13 extended payload shapes of a next-hop; validOnly restricts to shapes the schema accepts
+// nhx: one of 16 extended payload shapes of a next-hop; validOnly restricts to shapes the schema accepts
 // (labels and the subinterface number stay symbolic: they are constrained by an assumption instead).
 func (g *vfGen) nhx(name string, validOnly bool) *vfPayloadX {
 	x := &vfPayloadX{}
-	sh := vfInt(name+".px", 0, 12)
+	// shapes 0-12: addresses / references / stacks; shapes 13-15: encapsulation headers (selected by g.encap)
+	sh := 0
+	if g.encap {
+		if k := vfInt(name+".px", 0, 3); k > 0 {
+			sh = 12 + k
+		}
+	} else {
+		sh = vfInt(name+".px", 0, 12)
+	}
 	switch sh {
 	case 0:
 		return nil
@@ -128,6 +138,24 @@ func (g *vfGen) nhx(name string, validOnly bool) *vfPayloadX {
 		x.hasSrc, x.src = true, vfStrK(name+".src", "ip")
 		x.hasDst, x.dst = true, vfStrK(name+".dst", "ip")
 		x.stack = []uint64{vfU64(name + ".push"), vfU64(name + ".push"), vfU64(name + ".push")}
+	case 13:
+		// one MPLS encapsulation header: index 0 or 255, label stack of 2 (any 64-bit labels), any traffic class
+		x.eh = []vfEncapD{{idx: uint64(vfInt(name+".eh.idx", 0, 1)) * 255, typ: 4, labels: []uint64{vfU64(name + ".eh.l"), vfU64(name + ".eh.l")}, hasTC: true, tc: vfU64(name + ".eh.tc")}}
+	case 14:
+		// one UDPv6 encapsulation header with every field: any numbers, valid addresses
+		x.eh = []vfEncapD{{idx: 1, typ: 8, hasDSCP: true, dscp: vfU64(name + ".eh.dscp"), hasDPort: true, dport: vfU64(name + ".eh.dport"), hasSPort: true, sport: vfU64(name + ".eh.sport"),
+			hasTTL: true, ttl: vfU64(name + ".eh.ttl"), hasSIP: true, sip: vfStrK(name+".eh.sip", "ip"), hasDIP: true, dip: vfStrK(name+".eh.dip", "ip")}}
+	case 15:
+		// two headers (MPLS with one label, UDPv6 with ports only) in either index order, plus an address
+		a, b := uint64(1), uint64(2)
+		if vfBool(name + ".eh.swap") {
+			a, b = b, a
+		}
+		x.eh = []vfEncapD{{idx: a, typ: 4, labels: []uint64{vfU64(name + ".eh.l")}}, {idx: b, typ: 8, hasDPort: true, dport: vfU64(name + ".eh.dport"), hasSIP: true, sip: "2001:db8::g"}}
+		if vfBool(name + ".eh.goodsip") {
+			x.eh[1].sip = vfStrK(name+".eh.sip", "ip")
+		}
+		x.hasIP, x.ip = true, vfStrK(name+".ip", "ip")
 	}
 	if validOnly {
 		vfAssume(!x.invalid())
@@ -390,6 +418,7 @@ type vfRunCfg struct {
 	enums    bool // next-hop enum fields (see vfGen.enums)
 	payload  bool // extended payload (see vfGen.payload)
 	lean     bool // see vfGen.lean
+	encap    bool // see vfGen.encap
 }
 
 // vfRIBRun: canonical pre-state + symbolic steps, each answer checked against
@@ -400,7 +429,7 @@ func vfRIBRun(c vfRunCfg) {
 		fwd = vfBool("forward-references")
 	}
 	r, ref := vfNewPair(fwd)
-	g := &vfGen{rich: c.rich, fixLow: c.fixLow, splitLow: c.splitLow, enums: c.enums, payload: c.payload, lean: c.lean}
+	g := &vfGen{rich: c.rich, fixLow: c.fixLow, splitLow: c.splitLow, enums: c.enums, payload: c.payload, lean: c.lean, encap: c.encap}
 	pre := c.pre
 	if !fwd {
 		pre.nHeld = 0
